@@ -9,6 +9,7 @@ closest-point / evaluation function and every number of objectives.  `sgn w = if
 is the code's reading of a weight: a zero weight is treated as `+1`.
 -/
 import DeapModel.Lemmas.C19
+import DeapModel.Lemmas.C01Class
 
 set_option linter.unusedSectionVars false
 set_option linter.unusedSimpArgs false
@@ -367,6 +368,99 @@ theorem wrappers_independent (feas : X → Bool) (delta : SV α) (dist : Option 
       closestValidPenalty feas closest alpha dist2 weights fs[j] x a := by
   simp
 
+/-! ### Families of related fitness classes: only the weights the individual's OWN class resolves to matter -/
+
+section Classes
+open Fitness
+
+/-- **Class isolation.**  The penalised value (and the call log) of an individual depends on the world of fitness
+classes only through the weights its OWN class resolves to: two class tables (e.g. before and after other classes
+were created) and two class assignments under which the class of `x` resolves to the same weights give the same
+outcome, for both decorators — whatever any other class (parent, child, sibling) declares, and whichever individuals
+of those classes went through a decorator before (a decorated call returns no new table: `runHistory`). -/
+theorem penalty_class_isolation (tbl tbl' : ClassTable α) (cls cls' : X → Nat) (feas : X → Bool) (delta : SV α)
+    (dist : Option (X → SV α)) (closest : X → X) (alpha : α) (dist2 : Option (X → X → SV α))
+    (f : X → A → List α) (x : X) (a : A)
+    (h : lookupWeights tbl (cls x) = lookupWeights tbl' (cls' x)) :
+    deltaPenaltyCls tbl cls feas delta dist f x a = deltaPenaltyCls tbl' cls' feas delta dist f x a ∧
+    closestValidPenaltyCls tbl cls feas closest alpha dist2 f x a =
+      closestValidPenaltyCls tbl' cls' feas closest alpha dist2 f x a := by
+  simp [deltaPenaltyCls, closestValidPenaltyCls, h]
+
+/-- A class that declares its own `weights` is penalised with them, whatever its parent (or any ancestor) declares:
+the derived class `creator.create("MinMax", creator.MinMin, weights=(-1, 1))` moves its second objective DOWN. -/
+theorem penalty_class_own_weights (tbl : ClassTable α) (cls : X → Nat) (w : List α) (p : Option Nat)
+    (feas : X → Bool) (delta : SV α) (dist : Option (X → SV α)) (closest : X → X) (alpha : α)
+    (dist2 : Option (X → X → SV α)) (f : X → A → List α) (x : X) (a : A)
+    (h : tbl[cls x]? = some ⟨some w, p⟩) :
+    deltaPenaltyCls tbl cls feas delta dist f x a = some (deltaPenalty feas delta dist (fun _ => w) f x a) ∧
+    closestValidPenaltyCls tbl cls feas closest alpha dist2 f x a =
+      some (closestValidPenalty feas closest alpha dist2 (fun _ => w) f x a) := by
+  simp [deltaPenaltyCls, closestValidPenaltyCls, C01.lookupWeights_own tbl (cls x) w p h]
+
+/-- A class that declares no `weights` is penalised exactly as an individual of its parent class would be. -/
+theorem penalty_class_inherits (tbl : ClassTable α) (hwf : C01.TableWF tbl) (cls cls' : X → Nat) (p : Nat)
+    (feas : X → Bool) (delta : SV α) (dist : Option (X → SV α)) (closest : X → X) (alpha : α)
+    (dist2 : Option (X → X → SV α)) (f : X → A → List α) (x : X) (a : A)
+    (h : tbl[cls x]? = some ⟨none, some p⟩) (hp : cls' x = p) :
+    deltaPenaltyCls tbl cls feas delta dist f x a = deltaPenaltyCls tbl cls' feas delta dist f x a ∧
+    closestValidPenaltyCls tbl cls feas closest alpha dist2 f x a =
+      closestValidPenaltyCls tbl cls' feas closest alpha dist2 f x a :=
+  penalty_class_isolation tbl tbl cls cls' feas delta dist closest alpha dist2 f x a
+    (by rw [C01.lookupWeights_inherit tbl hwf (cls x) p h, hp])
+
+/-- Classes created later (a derived class, a sibling) change nothing for the individuals of an existing class. -/
+theorem penalty_class_later_classes (tbl ext : ClassTable α) (hwf : C01.TableWF tbl) (cls : X → Nat)
+    (feas : X → Bool) (delta : SV α) (dist : Option (X → SV α)) (closest : X → X) (alpha : α)
+    (dist2 : Option (X → X → SV α)) (f : X → A → List α) (x : X) (a : A) (hc : cls x < tbl.length) :
+    deltaPenaltyCls (tbl ++ ext) cls feas delta dist f x a = deltaPenaltyCls tbl cls feas delta dist f x a ∧
+    closestValidPenaltyCls (tbl ++ ext) cls feas closest alpha dist2 f x a =
+      closestValidPenaltyCls tbl cls feas closest alpha dist2 f x a :=
+  penalty_class_isolation (tbl ++ ext) tbl cls cls feas delta dist closest alpha dist2 f x a
+    (C01.lookupWeights_append tbl ext hwf (cls x) hc)
+
+/-- **Histories.**  The outcome of the `j`-th call of a history (any decorators of either class, any decorated
+functions, individuals of any classes of the family) is the outcome of that call made alone: it does not depend on
+which calls came before it, in which order the classes were first used, or on how many calls there were. -/
+theorem penalty_history_independent (tbl : ClassTable α) (cls : X → Nat) (h : List (HCall X A α)) (j : Nat)
+    (hj : j < h.length) :
+    (runHistory tbl cls h)[j]? = some (h[j].run tbl cls) ∧
+    ∀ (h' : List (HCall X A α)) (j' : Nat), h'[j']? = some h[j] → (runHistory tbl cls h')[j']? = (runHistory tbl cls h)[j]? := by
+  refine ⟨by simp [runHistory, hj], fun h' j' e => ?_⟩
+  simp [runHistory, hj, e]
+
+end Classes
+
+/-! ### The whole keyword map is passed through -/
+
+/-- The extras are `*args` and the keyword MAP `**kwargs` (names `String`, values `V`).  For a feasible individual
+both decorators return what the undecorated function returns when called the same way and call it once with the
+same positional arguments and a keyword map in which EVERY name — `verbose`, `func`, `self`, `alpha`, any string —
+has the value the caller gave it (and no name was added); for an infeasible individual `ClosestValidPenalty`
+evaluates the closest point with that same map. -/
+theorem feasible_passthrough_kwargs {P V : Type} (feas : X → Bool) (delta : SV α) (dist : Option (X → SV α))
+    (closest : X → X) (alpha : α) (dist2 : Option (X → X → SV α)) (weights : X → List α)
+    (f : X → (List P × List (String × V)) → List α) (x : X) (args : List P) (kw : List (String × V)) :
+    (feas x = true →
+      deltaPenalty feas delta dist weights f x (args, kw) = ⟨some (f x (args, kw)), [(x, (args, kw))]⟩ ∧
+      closestValidPenalty feas closest alpha dist2 weights f x (args, kw) = ⟨some (f x (args, kw)), [(x, (args, kw))]⟩) ∧
+    (∀ c ∈ (deltaPenalty feas delta dist weights f x (args, kw)).calls ++
+        (closestValidPenalty feas closest alpha dist2 weights f x (args, kw)).calls,
+      c.2.1 = args ∧ c.2.2 = kw ∧ ∀ name : String, c.2.2.lookup name = kw.lookup name) := by
+  refine ⟨fun h => ⟨feasible_passthrough_delta feas delta dist weights f x _ h,
+    feasible_passthrough_closest feas closest alpha dist2 weights f x _ h⟩, ?_⟩
+  intro c hc
+  have key : c.2 = (args, kw) := by
+    cases h : feas x
+    · have h1 := (delta_no_call feas delta dist weights f x (args, kw) h).1
+      have h2 := closest_calls feas closest alpha dist2 weights f x (args, kw) h
+      rw [h1, h2] at hc
+      simp at hc; rw [hc]
+    · rw [feasible_passthrough_delta feas delta dist weights f x _ h,
+        feasible_passthrough_closest feas closest alpha dist2 weights f x _ h] at hc
+      simp at hc; rw [hc]
+  rw [key]; exact ⟨rfl, rfl, fun _ => rfl⟩
+
 /-! ### Non-vacuity: concrete instances (weights of both signs and zero, scalar / vector
 constants and distances, a forwarded extra argument) -/
 
@@ -407,5 +501,24 @@ example : (([fun (y : Nat) (_ : Nat) => [(y : Int)], fun y a => [(y + a : Nat)],
 -- hypotheses of `never_better_*` / `delta_length`: non-negative distances, well-sized vectors
 example : (∀ v ∈ (SV.seq [(1 : Int), 2, 3]).vals, 0 ≤ v) ∧ (∀ v ∈ (SV.scalar (0 : Int)).vals, 0 ≤ v) := by
   decide
+-- `penalty_class_own_weights` / r7m2's family: parent (-1, -1), child overriding with (-1, 1), a grandchild inheriting
+-- from the child; the table is well-formed; the child's second objective goes DOWN, whatever the parent declares
+example : C01.TableWF ([⟨some [-1, -1], none⟩, ⟨some [-1, 1], some 0⟩, ⟨none, some 1⟩] : Fitness.ClassTable Int) := by
+  intro c k h p hp
+  match c, h with
+  | 0, h => simp at h; subst h; simp at hp
+  | 1, h => simp at h; subst h; simp at hp; omega
+  | 2, h => simp at h; subst h; simp at hp; omega
+  | _ + 3, h => simp at h
+example : (runHistory ([⟨some [-1, -1], none⟩, ⟨some [-1, 1], some 0⟩, ⟨none, some 1⟩] : Fitness.ClassTable Int)
+      (fun (x : Nat) => x)
+      [⟨false, fun _ => false, .scalar 100, some fun _ => .scalar 7, id, 0, none, fun _ (_ : Nat) => [0, 0], 0, 5⟩,
+       ⟨false, fun _ => false, .seq [100, -100], some fun _ => .scalar 7, id, 0, none, fun _ _ => [0, 0], 1, 5⟩,
+       ⟨true, fun _ => false, .scalar 0, none, id, 2, some fun _ _ => .scalar 7, fun _ _ => [3, 4], 2, 5⟩]).map
+      (fun o => o.bind (·.result)) = [some [107, 107], some [107, -107], some [17, -10]] := by decide
+-- `feasible_passthrough_kwargs`: a keyword named `verbose` arrives
+example : (closestValidPenalty (fun _ => true) id (1 : Int) none (fun _ => [1])
+      (fun (x : Nat) (a : List Nat × List (String × Nat)) => [(x : Int) + ((a.2.lookup "verbose").getD 0 : Nat)])
+      7 ([], [("verbose", 2)])).result = some [9] := by decide
 
 end C19
